@@ -42,7 +42,7 @@ Operand(e, p, side) ==
 
 ESrc(e) ==
   CASE e.k \in {"nil", "true", "false", "empty", "blank"} -> e.k
-    [] e.k = "int"   -> ToString(e.n)
+    [] e.k = "int"   -> IF "txt" \in DOMAIN e THEN e.txt ELSE ToString(e.n)     \* 1e1 is 10
     [] e.k = "float" -> e.txt                      \* as the author wrote it (1.50, 2.5e1 ...)
     [] e.k = "str"   -> Quote(e) \o e.v \o Quote(e)
     [] e.k = "var"   -> PathSrc(e.segs)
